@@ -588,6 +588,14 @@ def run(chk, replay=None):
             rcases.append(json.loads(line))
     for i in range(n_hist):
         rcases.append(gen_restart_case(rng, g, samples, tier, plant=(i % 2 == 1)))
+    # a LONG log suffix behind the last snapshot (the default snapshot size is 10000 entries): more than 2048 applied
+    # entries are replayed from one log file at start-up, every one of them must reach the state machine
+    big, hid = [], 0
+    for j in range(2300 if tier == "quick" else 4500):
+        hid += 1
+        big.append({"ConfigSet": {"key": c07.K("big%d" % (j % 700), "g1", ""), "value": "v%d" % j, "config_type": None, "desc": None,
+                                  "history_id": hid, "history_table_id": None, "op_time": 1700000000000 + hid, "op_user": None}})
+    rcases.append({"threshold": 100000, "phases": [{"reqs": big}, {"reqs": big[:3]}], "plants": [], "pace": True})
     r_out = lib.harness_run_parallel("restart", rcases, shards=8, env=env, timeout=2400)
     compactions = 0
     planted = 0
